@@ -51,7 +51,8 @@ LagBound(s) == IF s.ph = "enc" THEN MaxArenaChunk + s.L2 + 2 ELSE 0
 \* bytes, which must be consistent with everything observed before (a byte once observed
 \* never changes) -- all attributed to C09.
 ObsCheck(s, e, Dnew) ==
-     When(e.total < e.stable, V("C09", "stable bytes exceed total_size"))
+     When(e.dangling > 0, V("C05", "a slice exposed by the codec's consumer does not lie in a live arena chunk or the lent input"))
+\cup When(e.total < e.stable, V("C09", "stable bytes exceed total_size"))
 \cup When(e.total - e.stable > LagBound(s), V("C09", "lag (produced but not consumable) exceeds the bound"))
 \cup When(s.ph = "dec" /\ e.pending = 1, V("C09", "decoder has a pending backpatch (non-zero lag)"))
 \cup When(e.empty_slice = 1, V("C09", "an exposed slice is empty"))
@@ -132,8 +133,15 @@ DecFinishCheck(s, e) ==
      \cup When(s.kind = "rt" /\ ~(e.ok = 1 /\ out = s.plain),
                V("C01", "decoding the encoder's output does not return the original bytes")))
 
+\* the arena moved on (flush_cache): nothing observable may change
+Flush(s, e) ==
+  [st |-> s,
+   bad |-> IF e.panic # "" THEN V("C05", "panic after the arena cache was flushed: " \o e.panic)
+           ELSE ObsCheck(s, e, s.D) \cup When(e.stable # s.stable \/ e.total # s.total, V("C09", "flushing the arena cache changed the output"))]
+
 Step(s, e) ==
   CASE e.ev = "feed"  -> Feed(s, e)
+    [] e.ev = "flush" -> Flush(s, e)
     [] e.ev = "drain" -> Drain(s, e)
     [] e.ev = "finish" ->
          [st |-> s, bad |-> IF s.ph = "enc" THEN EncFinishCheck(s, e) ELSE DecFinishCheck(s, e)]
